@@ -429,3 +429,22 @@ def char_at(s, a, c, b):
 
 def head_of(a, rest):
     return len(a) == 0 or (a + rest)[0] == a[0]
+
+
+def leading_zeros(d, n):
+    if not (d.isascii() and d.isdigit() and len(d) == n):
+        return True
+    r = d.lstrip("0")
+    return int(d) == (int(r) if r else 0) and int(d) < 10 ** len(r)
+
+
+def digits_only(d, ch):
+    return not (d.isascii() and d.isdigit()) or (ch not in d and d.find(ch) == -1 and d.rfind(ch) == -1)
+
+
+def digit_chars(d, n):
+    return not (d.isascii() and d.isdigit() and len(d) == n) or (all(c in "0123456789" for c in d) and "".join(d[i:i + 1] for i in range(n)) == d)
+
+
+def chars_at(s, a, tok, n, b):
+    return not (s == a + tok + b and len(tok) == n) or all(s[len(a) + i] == tok[i] for i in range(n))
